@@ -3,6 +3,7 @@
 package vm
 
 import (
+	"encoding/binary"
 	"math/big"
 
 	"github.com/dominant-strategies/go-quai/common"
@@ -14,9 +15,7 @@ func unwrapInput(beneficiary common.Address, value *big.Int, gasLimit uint64) []
 	in := make([]byte, 60)
 	copy(in[:20], beneficiary.Bytes())
 	value.FillBytes(in[20:52])
-	for i := 0; i < 8; i++ {
-		in[52+i] = byte(gasLimit >> (8 * uint(7-i)))
-	}
+	binary.BigEndian.PutUint64(in[52:60], gasLimit)
 	return in
 }
 
@@ -29,6 +28,8 @@ func unwrapInput(beneficiary common.Address, value *big.Int, gasLimit uint64) []
 // to that beneficiary with a fresh index; a failed call changes neither the balance nor the ETX
 // list; the balance never goes below zero; altogether, the value carried by emitted ETXs equals
 // what was debited.
+//
+// verif:bounds qtimeout=40s
 func VerifH_C05_d() {
 	InitializePrecompiles(vLoc)
 	db := newModelDB()
@@ -67,7 +68,9 @@ func VerifH_C05_d() {
 			vAssert("unwrap/exactly-one-etx", len(evm.ETXCache) == n0+1)
 			if len(evm.ETXCache) == n0+1 {
 				e := evm.ETXCache[n0]
-				vAssert("unwrap/etx-carries-the-amount-to-the-beneficiary", e.Value().Cmp(amount) == 0 && e.To().Equal(ben) && e.EtxType() == types.UnwrapQiType && int(e.ETXIndex()) == n0 && e.Gas() == etxGas)
+				vAssert("unwrap/etx-carries-the-amount", e.Value().Cmp(amount) == 0)
+				vAssert("unwrap/etx-goes-to-the-beneficiary", e.To().Bytes20() == ben.Bytes20())
+				vAssert("unwrap/etx-type-index-gas", e.EtxType() == types.UnwrapQiType && int(e.ETXIndex()) == n0 && e.Gas() == etxGas)
 				emitted.Add(emitted, e.Value())
 			}
 			_, qerr := ben.InternalAndQiAddress()
